@@ -249,5 +249,5 @@ def run_mc(module, workdir, workers=8, timeout=1800, env=None, extra=(), cfg=Non
 
 
 def scenario_hash(sc):
-    d = {"cfg": sc["cfg"], "calls": sc["calls"], "fault": sc.get("fault")}
+    d = {"cfg": sc["cfg"], "calls": sc["calls"], "fault": sc.get("fault"), "faults": sc.get("faults")}
     return hashlib.sha1(json.dumps(d, sort_keys=True).encode()).hexdigest()[:12]
